@@ -15,7 +15,7 @@ func init() {
 		id: "C05",
 		li: levelInfo{
 			Level:       "other",
-			Explanation: "Static wiring rules for the TCP relay; each is a necessary condition of byte-exact relaying. R1: the handler calls the pipe function exactly twice with the same two connection values in opposite roles, one of them in its own goroutine, and nothing else in proc/tcp reads from or writes to either connection. R2: inside the pipe function the value that is the writer argument of the copy is the one given to closeWrite and the reader argument the one given to closeRead; a full Close happens only on the error branch of the corresponding half-close. R3: pooled buffer typestate - every buffer handed to the copy is either the caller's or the direct result of getBuffer(); only a buffer obtained from getBuffer() in the same function is put back, after the copy, exactly once, and it does not escape. R4: every return of the handler after the upstream dial succeeded crosses the receive on the channel the second direction closes. R5: the connection wrapper's Read/Write return exactly the n and err of the underlying call made with the caller's own slice, Read touches only the read deadline and Write only the write deadline. Byte equality under all chunkings is the contract of io.CopyBuffer and the kernel and is not decided. R6: every call on a network connection in the data-path packages is classified; no socket option that discards queued data on close (SO_LINGER >= 0). R5 also: with a positive timeout every path to the underlying Read/Write renews its deadline. R7: no goroutine started in a loop captures a variable declared outside the loop and assigned inside it. R8 (shared with C06.R1/R5): the host whose removal closes the session is the host every dial of the session goes to. R9: no value of a type implementing net.Conn is put into a sync.Pool. The second relay direction may be a closure or a method started with go. R10: every module type that embeds net.Conn declares CloseWrite and CloseRead. R6 also forbids TCP_USER_TIMEOUT on relayed connections.",
+			Explanation: "Static wiring rules for the TCP relay; each is a necessary condition of byte-exact relaying. R1: the handler calls the pipe function exactly twice with the same two connection values in opposite roles, one of them in its own goroutine, and nothing else in proc/tcp reads from or writes to either connection. R2: inside the pipe function the value that is the writer argument of the copy is the one given to closeWrite and the reader argument the one given to closeRead; a full Close happens only on the error branch of the corresponding half-close. R3: pooled buffer typestate - every buffer handed to the copy is either the caller's or the direct result of getBuffer(); only a buffer obtained from getBuffer() in the same function is put back, after the copy, exactly once, and it does not escape. R4: every return of the handler after the upstream dial succeeded crosses the receive on the channel the second direction closes. R5: the connection wrapper's Read/Write return exactly the n and err of the underlying call made with the caller's own slice, Read touches only the read deadline and Write only the write deadline. Byte equality under all chunkings is the contract of io.CopyBuffer and the kernel and is not decided. R6: every call on a network connection in the data-path packages is classified; no socket option that discards queued data on close (SO_LINGER >= 0). R5 also: with a positive timeout every path to the underlying Read/Write renews its deadline. R7: no goroutine started in a loop captures a variable declared outside the loop and assigned inside it. R8 (shared with C06.R1/R5): the host whose removal closes the session is the host every dial of the session goes to. R9: no value of a type implementing net.Conn is put into a sync.Pool. The second relay direction may be a closure or a method started with go. R10: every module type that embeds net.Conn declares CloseWrite and CloseRead. R6 also forbids TCP_USER_TIMEOUT on relayed connections. R6 also: deadline setters on connections are called only inside the timed wrapper. R8 also requires every store into the healthy-hosts cache to happen under the set's write lock. Relay calls are recognised through method values.",
 			Assumptions: []string{"io.CopyBuffer relays bytes unmodified and in order"},
 			TrustedBase: []string{"go/ssa"},
 		},
